@@ -195,8 +195,11 @@ def concretize(ex, model):
         if isinstance(v, E.StrV):
             return v.s
         if isinstance(v, E.ObjV):
-            # an opaque record becomes a plain record of the fields the unit looked at (the contract's `call` adapter
-            # decides how to turn it into a real object)
+            # an opaque record becomes a plain record of the fields the unit looked at; only a contract with a `call`
+            # adapter knows how to turn that into a real object -- without one the model cannot be replayed (a crash of
+            # the real function on a stand-in record would say nothing about the code)
+            if getattr(ex.c.cls, "call", None) is None:
+                raise NotConcretizable("record parameter and no call adapter")
             from .concrete import Rec
             return Rec(**{k: conc(x) for k, x in v.fields.items() if not (k.startswith("__") and not k.startswith("__isinstance_"))})
         raise NotConcretizable(repr(v))
